@@ -169,4 +169,128 @@ theorem enum_is_str (t : PType) (table : List (PyVal × String)) (h : t.kind = .
     minNumpyDtype t false = .str := by
   simp [minNumpyDtype, h]
 
+/-! ### float columns: the chosen dtype can represent every decoded value exactly -/
+
+/-- The finite values of a binary floating-point format with `p` significant bits and exponent range
+    `[emin, emax]` (of the unit in the last place): `m · 2^e` with `|m| < 2^p`. -/
+def Rep (p : Nat) (emin emax : Int) (q : Rat) : Prop :=
+  ∃ (m e : Int), m.natAbs < 2 ^ p ∧ emin ≤ e ∧ e ≤ emax ∧ q = (m : Rat) * pow2 e
+
+/-- Does a float column of the given dtype hold `v` exactly?  Infinities, NaN and −0 exist in every IEEE format. -/
+def floatHolds : DType → FVal → Prop
+  | .float 32, .fin q => Rep 24 (-149) 104 q
+  | .float 64, .fin q => Rep 53 (-1074) 971 q
+  | .float _, .fin _ => False
+  | .float _, _ => True
+  | _, _ => False
+
+theorem rep_mk (p : Nat) (emin emax : Int) (neg : Bool) (n : Nat) (e : Int) (hn : n < 2 ^ p) (h1 : emin ≤ e)
+    (h2 : e ≤ emax) : Rep p emin emax ((if neg then -1 else 1) * (n : Rat) * pow2 e) := by
+  cases neg
+  · exact ⟨(n : Int), e, by simpa using hn, h1, h2, by simp [Rat.intCast_natCast]⟩
+  · refine ⟨-(n : Int), e, by simpa using hn, h1, h2, ?_⟩
+    rw [Rat.intCast_neg, Rat.intCast_natCast]
+    grind
+
+/-- Every finite value an IEEE field of `eb` exponent and `mb` fraction bits decodes to is `m · 2^e` with
+    `|m| < 2^(mb+1)` and `e` between the subnormal exponent and the largest normal one. -/
+theorem rep_of_decode (eb mb : Nat) (bits : Nat) (q : Rat) (heb : 2 ≤ eb)
+    (h : ieeeDecode eb mb bits = .fin q) :
+    Rep (mb + 1) (1 - (2 ^ (eb - 1) - 1 : Int) - mb) (((2 ^ eb - 2 : Nat) : Int) - (2 ^ (eb - 1) - 1 : Int) - mb) q := by
+  unfold ieeeDecode at h
+  simp only at h
+  have hM : 0 < 2 ^ mb := Nat.pow_pos (by omega)
+  have hE0 : 0 < 2 ^ eb := Nat.pow_pos (by omega)
+  have hfl : bits % 2 ^ mb < 2 ^ mb := Nat.mod_lt _ hM
+  have hel : bits / 2 ^ mb % 2 ^ eb < 2 ^ eb := Nat.mod_lt _ hE0
+  have h2 : (2:Nat) ^ eb ≥ 4 := by
+    calc (2:Nat) ^ eb ≥ 2 ^ 2 := Nat.pow_le_pow_right (by omega) heb
+      _ = 4 := rfl
+  have hp : (2:Nat) ^ (mb + 1) = 2 * 2 ^ mb := by rw [Nat.pow_succ]; omega
+  generalize (2 ^ (eb - 1) - 1 : Int) = B at h ⊢
+  generalize hEx : bits / 2 ^ mb % 2 ^ eb = ex at h hel
+  generalize hF : bits % 2 ^ mb = f at h hfl
+  generalize (bits / 2 ^ (eb + mb) % 2 == 1) = sg at h
+  generalize (2 ^ eb : Nat) = E at h hel h2 ⊢
+  generalize (2 ^ mb : Nat) = M at h hfl hp hM
+  split at h
+  · split at h <;> cases h
+  · rename_i hne
+    have hne' : ¬ ex = E - 1 := by simpa using hne
+    split at h
+    · rename_i he0
+      split at h
+      · split at h
+        · cases h
+        · injection h with h; subst h
+          have := rep_mk (mb + 1) (1 - B - mb) (((E - 2 : Nat) : Int) - B - mb) false 0 (1 - B - mb)
+            (by omega) (Int.le_refl _) (by omega)
+          simpa using this
+      · injection h with h; subst h
+        exact rep_mk _ _ _ sg f _ (by omega) (Int.le_refl _) (by omega)
+    · rename_i he0
+      have he0' : ¬ ex = 0 := by simpa using he0
+      injection h with h; subst h
+      exact rep_mk _ _ _ sg (M + f) _ (by omega) (by omega) (by omega)
+
+theorem rep_mono {p p' : Nat} {emin emax emin' emax' : Int} {q : Rat} (hp : p ≤ p') (h1 : emin' ≤ emin)
+    (h2 : emax ≤ emax') (h : Rep p emin emax q) : Rep p' emin' emax' q := by
+  obtain ⟨m, e, hm, he1, he2, hq⟩ := h
+  exact ⟨m, e, Nat.lt_of_lt_of_le hm (Nat.pow_le_pow_right (by omega) hp), by omega, by omega, hq⟩
+
+/-- IEEE float encodings (16, 32 or 64 bits): the column dtype chosen for the raw value represents every decoded
+    value exactly — float32 for 32-bit fields, float64 for the others. -/
+theorem ieee_fits (e : NumEnc) (w bits : Nat) (v : FVal) (hf : e.isFloat = true) (hs : e.size = (w : Int))
+    (henc : e.encoding ≠ "MILSTD_1750A") (hv : ieeeVal w bits = some v) :
+    floatHolds (minDtypeForEncoding (.num e)) v := by
+  have henc' : (e.encoding != "MILSTD_1750A") = true := by simpa using henc
+  unfold ieeeVal at hv
+  split at hv
+  · injection hv with hv
+    have hd : minDtypeForEncoding (.num e) = .float 64 := by simp [minDtypeForEncoding, hf, hs]
+    rw [hd]
+    cases v with
+    | fin q =>
+      have := rep_of_decode 5 10 bits q (by omega) hv
+      exact rep_mono (by omega) (by decide) (by decide) this
+    | negZero => trivial
+    | inf s => trivial
+    | nan => trivial
+  · injection hv with hv
+    have hd : minDtypeForEncoding (.num e) = .float 32 := by simp [minDtypeForEncoding, hf, hs, henc']
+    rw [hd]
+    cases v with
+    | fin q =>
+      have := rep_of_decode 8 23 bits q (by omega) hv
+      exact rep_mono (by omega) (by decide) (by decide) this
+    | negZero => trivial
+    | inf s => trivial
+    | nan => trivial
+  · injection hv with hv
+    have hd : minDtypeForEncoding (.num e) = .float 64 := by simp [minDtypeForEncoding, hf, hs]
+    rw [hd]
+    cases v with
+    | fin q =>
+      have := rep_of_decode 11 52 bits q (by omega) hv
+      exact rep_mono (by omega) (by decide) (by decide) this
+    | negZero => trivial
+    | inf s => trivial
+    | nan => trivial
+  · cases hv
+
+/-- MIL-STD-1750A 32-bit floats go to a float64 column, which represents every one of them exactly
+    (24-bit mantissa, exponent −128…127: the smallest lie below float32's subnormal range). -/
+theorem mil_fits (e : NumEnc) (bits : Nat) (hf : e.isFloat = true) (henc : e.encoding = "MILSTD_1750A") :
+    floatHolds (minDtypeForEncoding (.num e)) (mil1750aVal bits) := by
+  have hd : minDtypeForEncoding (.num e) = .float 64 := by simp [minDtypeForEncoding, hf, henc]
+  rw [hd]
+  unfold mil1750aVal
+  refine ⟨twosComplement (bits / 256 % 2 ^ 24) 24, twosComplement (bits % 256) 8 - 23, ?_, ?_, ?_, rfl⟩
+  · unfold twosComplement; split <;> omega
+  · unfold twosComplement; split <;> omega
+  · unfold twosComplement; split <;> omega
+
+/-- Non-vacuity, and the value that the unrepaired float32 choice rounded: mantissa 1, exponent −128. -/
+example : mil1750aVal 0x00000180 = .fin (pow2 (-151)) := by decide +kernel
+
 end Spp.C18
